@@ -66,6 +66,12 @@ class Writer:
             raise Unsupported("non-bytes constant %r in a byte layout" % (v,))
         if t.op == "bin" and t.args[0] == "Add":
             return _merge_consts(F(t.args[1]) + F(t.args[2]))
+        if t.op == "bin" and t.args[0] == "Mult":
+            # b"\x00" * n  (either order)
+            l, r = unsnap(t.args[1]), unsnap(t.args[2])
+            for bs, cnt in ((l, r), (r, l)):
+                if is_const(bs) and isinstance(cval(bs), (bytes, bytearray)) and bytes(cval(bs)) == b"\x00" and _intish(cnt):
+                    return [("const", bytes(cval(cnt)))] if is_const(cnt) and cval(cnt) >= 0 else [("zeros", cnt)]
         mc = meth_call(t)
         if mc is not None:
             recv, name, args, kwargs = mc
@@ -111,6 +117,13 @@ class Writer:
             name, args, kwargs = bc
             if name == "bytes" and len(args) == 1:
                 a = unsnap(args[0])
+                # bytes(n) with an integer n: n zero bytes
+                if _intish(a):
+                    if is_const(a):
+                        if cval(a) < 0:
+                            raise Unsupported("bytes(%d)" % cval(a))
+                        return [("const", bytes(cval(a)))] if cval(a) else []
+                    return [("zeros", a)]
                 # bytes([0x00] * n) / bytes([a, b, c]) / bytes(x)
                 if a.op == "bin" and a.args[0] == "Mult":
                     l, r = unsnap(a.args[1]), unsnap(a.args[2])
@@ -142,6 +155,24 @@ class Writer:
         if o is not None and o.exact:
             return list(o.items)
         return None
+
+
+def _intish(t: Term) -> bool:
+    """the term certainly denotes an int (never a sequence): literals, len(), and arithmetic that sequences do not support"""
+    t = unsnap(t)
+    if is_const(t):
+        return isinstance(cval(t), int) and not isinstance(cval(t), bool)
+    if t.op == "len":
+        return True
+    if t.op == "un" and t.args[0] in ("USub", "UAdd", "Invert"):
+        return _intish(t.args[1])
+    if t.op == "bin":
+        op, a, b = t.args
+        if op in ("Mod", "FloorDiv", "Sub", "LShift", "RShift", "BitAnd", "BitOr", "BitXor", "Pow"):
+            return _intish(a) and _intish(b) if op == "Mod" else (_intish(a) or _intish(b)) and not (is_const(unsnap(a)) and isinstance(cval(unsnap(a)), (str, bytes)))
+        if op in ("Add", "Mult"):
+            return _intish(a) and _intish(b)
+    return False
 
 
 def _merge_consts(segs: List[tuple]) -> List[tuple]:
